@@ -11,6 +11,8 @@ CASES[h5_clear_reorder]="perl -0pi -e 's/self.heap.clear\\(\\);\\n(\\s*)self.qp.
 CASES[h6_ne_zero]="sed -i 's/while if position.0 > 0 {/while if position.0 != 0 {/' src/priority_queue/mod.rs"
 CASES[h7_comment_and_blank]="sed -i 's/self.store.swap(i, largest);/\\/\\/ exchange with the larger child\\n            self.store.swap(i, largest);\\n/' src/priority_queue/mod.rs"
 CASES[h8_size_dec_first]="perl -0pi -e 's/let head: Index = self.heap.swap_remove\\(position.0\\);\\n(\\s*)self.size -= 1;/self.size -= 1;\\n\$1let head: Index = self.heap.swap_remove(position.0);/' src/store.rs"
+# further cases live in tools/harmless/<name>.py (run inside the scratch worktree)
+for f in tools/harmless/*.py; do n=$(basename $f .py); CASES[$n]="python3 /verif/$f"; done
 sel=("$@"); [ ${#sel[@]} -eq 0 ] && sel=("${!CASES[@]}")
 for c in "${sel[@]}"; do
   W=/tmp/pq-harmless.$c; git -C /repo worktree add -q --detach $W HEAD || continue
